@@ -46,8 +46,10 @@ func (f *Float) SubtractFromFloat(num uint) error {
 
 	// Parse the integer part
 	intPart, err := strconv.ParseUint(nums[0], 10, 64)
-	if err != nil {
-		return err
+	if err != nil || intPart < uint64(num) {
+		// negative values and values smaller than num: plain subtraction
+		f.Value -= float64(num)
+		return nil
 	}
 
 	// Subtract the uint value from the integer part
